@@ -61,7 +61,7 @@ def tool_hash():
         for d in ("tool", "contracts"):
             for fn in sorted(os.listdir(os.path.join(VERIF, d))):
                 p = os.path.join(VERIF, d, fn)
-                if fn in ("selftest.py", "mkmeta.py", "try_seeds.sh", "confirm_seed.sh", "dev.py", "batch.sh", "vf.sh", "summ.py", "replay.py"):
+                if fn in ("selftest.py", "mkmeta.py", "try_seeds.sh", "confirm_seed.sh", "import_seed.sh", "dev.py", "batch.sh", "vf.sh", "summ.py", "replay.py"):
                     continue          # development helpers: they do not influence a verdict
                 if os.path.isfile(p) and not fn.endswith(".pyc"):
                     parts.append(fn)
@@ -100,7 +100,8 @@ QUICK_MICRO = ["m03_star", "m05_opt", "m07_nullable_rule", "m11_deep", "e02_cond
                "p06_assert", "p07_pred_nullable", "x03_right1", "x04_right2", "x05_prefix", "x07_mixed", "x08_call", "x13_marker",
                "q01_parts", "q02_parts_shared",
                "k01_noskip", "o03_choice_rule", "o04_choice_in_loop", "o05_choice_loop_alt", "o06_choice_elide_rename",
-               "o09_choice_commit_rule", "o11_choice_star"]
+               "o09_choice_commit_rule", "o11_choice_star", "o12_choice_cond_elide_rename",
+               "m12_loop_in_recursive", "n10_rename_nameless_creation", "x14_prefix_postfix"]
 QUICK_SKEL = {"fe", "m03_star", "k01_noskip", "q01_parts", "o03_choice_rule", "ex_json"}
 QUICK_EX = ["calc", "json", "l", "toml"]
 
@@ -333,8 +334,16 @@ def verify_unit(unit, gen_text, timeout=1500):
         open(p, "w").write(t)
         js, err, wall = run_verus(p, timeout)
         return i, t, js, err, wall
-    with cf.ThreadPoolExecutor(max_workers=nsh) as ex:
-        outs = list(ex.map(one, range(nsh)))
+    unc = ((rep0.get("annotator") or {}).get("uncontracted_calls")) or []
+    if unc:
+        # the runtime gained a function the contracts do not know: a caller that fails to verify says
+        # nothing about the property -- undecided; the bounded stand-in below can still find a failing input
+        res["status"] = "needs_contract"
+        res["detail"] = "emitted rule functions call parser functions that have no contract: " + ", ".join(unc)
+        outs = []
+    else:
+        with cf.ThreadPoolExecutor(max_workers=nsh) as ex:
+            outs = list(ex.map(one, range(nsh)))
     res["wall_s"] = round(time.time() - t0, 2)
     for (i, t, js, err, wall) in outs:
         if js is None:
@@ -373,12 +382,13 @@ def verify_unit(unit, gen_text, timeout=1500):
         # E13 functions are verified, but the frame of an abandoned alternative is assumed at every
         # set_state call: the bounded stand-in keeps running for them
         ext = list(ext) + ["%s (verified under E13; frame of abandoned alternatives assumed)" % f for f in e13]
-    rejected = res["status"] in ("front_end_error", "verus_failed")
+    rejected = res["status"] in ("front_end_error", "verus_failed", "needs_contract")
     if rejected:
         # the verifier could not ingest the extracted text at all: nothing is proved for this unit; the
         # bounded stand-in below is the only thing that can still decide (a failing input is a violation,
         # no failing input leaves the unit undecided)
-        ext = ["<whole unit: the verifier front end rejected the extracted text>"]
+        ext = ["<whole unit: %s>" % ("a parser function without contract is called" if res["status"] == "needs_contract"
+                                     else "the verifier front end rejected the extracted text")]
     if (res["status"] == "ok" and ext) or rejected:
         # bounded stand-in for the functions Verus cannot ingest (E8): exhaustive native run of the
         # real emitted parser over all short inputs.  Labelled bounded, never counted as proved.
